@@ -494,7 +494,11 @@ layout `items`; a fetch at conn offset `q` is answered under the fetch contract 
 containing `q`, the first one whole, then as far as the byte budget reaches) or the connection is lost after any number
 `n` of bytes; what arrives is read by the statement-level model of message_reader.go / batch.go (`Pull.readAll`); the
 result is the event fed to `rstep`.  All other events (sleeps, initialize, partition errors, I/O errors, cancellation)
-stay free.  The one assumption left (`Env.ok`): a first offset reported by the broker is not above a stored record. -/
+stay free.  The one assumption left (`Env.ok`): a first offset reported by the broker is not above a stored record.
+The partition may be **written to while it is read**: `fetchSnap m …` is a fetch answered at a moment when only the first
+`m` batches / messages of `items` are stored (appends only).  Such an answer is an answer from the final layout cut after
+fewer bytes (`serve_take`), so every theorem below speaks about a live partition, `items` being what it will hold in the
+end: at every moment the loop has pushed exactly the records of the final log between its start offset and `offset`. -/
 
 /-- `reader_end_to_end`: for every well-formed layout (formats 0/1/2, compression, holes, empty batches), every start
 offset and **every** sequence of environment moves — byte budgets, high watermarks, deadline expiries, connections lost
@@ -568,6 +572,11 @@ theorem reader_no_starvation (cfg : RCfg) (items : List Item) (nb : Int) (hnb : 
   have h := rinv_world_run cfg items nb hnb hwf xs _ (rinv_init (allRecords items) o0 ho) hx
   exact catch_up cfg items nb hnb hwf hwm hh moves _ h
     (Or.inr ⟨hr, Nat.le_trans (dropBefore_length_le _ items) hk⟩)
+
+/-- a partition that is being written to: the first fetch sees one batch, the second the next one as well -/
+example : (worldRun {} [.b2 3 4 false 24 [(0, 1, 12), (1, 2, 12)], .b2 5 9 true 30 [(0, 3, 20), (4, 4, 20)]] { offset := -2 }
+    [.initOk 3 5, .sleepOk, .fetchSnap 1 1000 5 false, .sleepOk, .fetchSnap 1 1000 5 false, .sleepOk,
+     .fetchSnap 2 1000 10 false]).msgs = [(3, 1), (4, 2), (5, 3), (9, 4)] := by decide
 
 /-- a run with a connection lost in the middle of a compressed batch and a re-initialisation -/
 example : (worldRun {} [.b2 3 4 false 24 [(0, 1, 12), (1, 2, 12)], .b2 5 9 true 30 [(0, 3, 20), (4, 4, 20)]] { offset := -2 }
